@@ -11,7 +11,7 @@
 (* With Record = TRUE the behaviour is kept as a script and emitted at       *)
 (* terminal states for replay on the real extractor.                         *)
 EXTENDS Extract, Json, CSV, IOUtils
-CONSTANTS NA, NB, MaxSteps, MaxDup, MaxBad, Ticks, Record, Ver
+CONSTANTS NA, NB, MaxSteps, MaxDup, MaxBad, MaxRestart, Ticks, Record, Ver
 
 P == IF Ver = 1 THEN <<0, 0, 0, 0, 1, 56, 0, 0, 0, 1>> ELSE <<1, 56, 0, 0, 0, 1>>
 IdA == 2049     \* 0x0801
@@ -19,10 +19,11 @@ IdB == 1796     \* 0x0704
 Tot(id) == IF id = IdA THEN NA ELSE NB
 Ids == {IdA} \cup (IF NB > 0 THEN {IdB} ELSE {})
 \* distinct, unequal-length bodies; some with escape bytes
-BodyOf(id, no) == IF id = IdA THEN [i \in 1..no |-> 16 * no + i] ELSE <<126, 125, no>>
-PartFrame(id, no, serial, total) ==
+\* (g = generation: a transfer that is started again carries different bytes than the abandoned one)
+BodyOfG(id, no, g) == IF id = IdA THEN [i \in 1..no |-> 16 * no + i + 64 * g] ELSE <<126, 125, no + 64 * g>>
+PartFrameG(id, no, serial, total, g) ==
     TerminalFrame([id |-> id, rsv15 |-> 0, ver |-> Ver, frag |-> 1, enc3 |-> 0, verbyte |-> 1, phone |-> P,
-                   serial |-> serial, total |-> total, no |-> no, body |-> BodyOf(id, IF no = 0 THEN 9 ELSE no)])
+                   serial |-> serial, total |-> total, no |-> no, body |-> BodyOfG(id, IF no = 0 THEN 9 ELSE no, g)])
 PlainFrame(serial) ==
     TerminalFrame([id |-> 2, rsv15 |-> 0, ver |-> Ver, frag |-> 0, enc3 |-> 0, verbyte |-> 1, phone |-> P,
                    serial |-> serial, total |-> 0, no |-> 0, body |-> <<>>])
@@ -35,14 +36,15 @@ VARIABLES x, steps, tser,
           gap,       \* gap[id] : idle time of the transfer as seen by the step just taken (ghost)
           delivered, \* number of completed deliveries per id
           dups, bads, plains,
+          gen,       \* gen[id] : how often the transfer was started again before it was complete (ghost)
           last,      \* [op, out, rereq] of the step just taken
           script
-vars == <<x, steps, tser, sentNo, firstSer, started, lastProg, gap, delivered, dups, bads, plains, last, script>>
+vars == <<x, steps, tser, sentNo, firstSer, started, lastProg, gap, delivered, dups, bads, plains, gen, last, script>>
 
 Init == /\ x = InitX /\ steps = 0 /\ tser = 100
         /\ sentNo = [id \in Ids |-> {}] /\ firstSer = [id \in Ids |-> 0] /\ started = [id \in Ids |-> -1]
         /\ lastProg = [id \in Ids |-> 0] /\ gap = [id \in Ids |-> 0] /\ delivered = [id \in Ids |-> 0]
-        /\ dups = 0 /\ bads = 0 /\ plains = 0
+        /\ dups = 0 /\ bads = 0 /\ plains = 0 /\ gen = [id \in Ids |-> 0]
         /\ last = [op |-> "none", out |-> <<>>, rereq |-> {}, id |-> 0, no |-> 0]
         /\ script = <<>>
 
@@ -63,32 +65,40 @@ Active(id) == started[id] >= 0 /\ sentNo[id] # 1..Tot(id)
 Stale(id) == started[id] >= 0 /\ x.now - started[id] > Ttl
 
 SendFirst(id) == /\ (~Active(id) \/ Stale(id)) /\ delivered[id] = 0
-                 /\ DoFeed(PartFrame(id, 1, tser, Tot(id)), "part", id, 1)
+                 /\ DoFeed(PartFrameG(id, 1, tser, Tot(id), gen[id]), "part", id, 1)
                  /\ sentNo' = [sentNo EXCEPT ![id] = {1}] /\ firstSer' = [firstSer EXCEPT ![id] = tser]
                  /\ started' = [started EXCEPT ![id] = x.now]
-                 /\ UNCHANGED <<dups, bads, plains>>
+                 /\ UNCHANGED <<dups, bads, plains, gen>>
+\* the terminal abandons a transfer that is still open on the server and starts the same message again: packet 1 replaces the
+\* old transfer, nothing of it may reach the new one
+Restart(id) == /\ Active(id) /\ ~Stale(id) /\ gen[id] < MaxRestart /\ Cardinality(sentNo[id]) > 1
+               /\ gen' = [gen EXCEPT ![id] = @ + 1]
+               /\ DoFeed(PartFrameG(id, 1, tser, Tot(id), gen[id] + 1), "part", id, 1)
+               /\ sentNo' = [sentNo EXCEPT ![id] = {1}] /\ firstSer' = [firstSer EXCEPT ![id] = tser]
+               /\ started' = [started EXCEPT ![id] = x.now]
+               /\ UNCHANGED <<dups, bads, plains>>
 SendPart(id, no) ==
     /\ Active(id) /\ no \in 2..Tot(id)
     /\ \/ no \notin sentNo[id] /\ dups' = dups
        \/ no \in sentNo[id] /\ dups < MaxDup /\ dups' = dups + 1
-    /\ DoFeed(PartFrame(id, no, tser, Tot(id)), "part", id, no)
+    /\ DoFeed(PartFrameG(id, no, tser, Tot(id), gen[id]), "part", id, no)
     /\ sentNo' = [sentNo EXCEPT ![id] = @ \cup {no}]
-    /\ UNCHANGED <<firstSer, started, bads, plains>>
+    /\ UNCHANGED <<firstSer, started, bads, plains, gen>>
 SendBad(id, no) ==
     /\ bads < MaxBad /\ no \in {0, Tot(id) + 1} /\ bads' = bads + 1
-    /\ DoFeed(PartFrame(id, no, tser, Tot(id)), "bad", id, no)
-    /\ UNCHANGED <<sentNo, firstSer, started, dups, plains>>
+    /\ DoFeed(PartFrameG(id, no, tser, Tot(id), gen[id]), "bad", id, no)
+    /\ UNCHANGED <<sentNo, firstSer, started, dups, plains, gen>>
 SendPlain == /\ plains < 1 /\ plains' = plains + 1
              /\ DoFeed(PlainFrame(tser), "plain", 0, 0)
-             /\ UNCHANGED <<sentNo, firstSer, started, dups, bads>>
+             /\ UNCHANGED <<sentNo, firstSer, started, dups, bads, gen>>
 Pass(d) == /\ d \in Ticks /\ x' = Tick(x, d)
            /\ last' = [op |-> "tick", out |-> <<>>, rereq |-> {}, id |-> 0, no |-> 0]
            /\ script' = IF Record THEN Append(script, [op |-> "tick", bytes |-> <<>>, d |-> d, out |-> <<>>, rereq |-> {}]) ELSE script
            /\ steps' = steps + 1
-           /\ UNCHANGED <<tser, sentNo, firstSer, started, lastProg, gap, dups, bads, plains>>
+           /\ UNCHANGED <<tser, sentNo, firstSer, started, lastProg, gap, dups, bads, plains, gen>>
 
 Completes == {i \in 1..Len(last'.out) : last'.out[i].kind = "complete"}
-Step == \/ \E id \in Ids : SendFirst(id) \/ (\E no \in 0..(Tot(id) + 1) : SendPart(id, no) \/ SendBad(id, no))
+Step == \/ \E id \in Ids : SendFirst(id) \/ Restart(id) \/ (\E no \in 0..(Tot(id) + 1) : SendPart(id, no) \/ SendBad(id, no))
         \/ SendPlain
         \/ \E d \in Ticks : Pass(d)
 Next == /\ steps < MaxSteps /\ Step
@@ -100,7 +110,7 @@ Comp == {i \in 1..Len(last.out) : last.out[i].kind = "complete"}
 \*      once, with the concatenation of the packet bodies in number order
 DeliveredExact ==
     /\ \A i \in Comp : /\ last.op = "part" /\ last.out[i].id = last.id
-                       /\ last.out[i].body = Concat([k \in 1..Tot(last.id) |-> BodyOf(last.id, k)])
+                       /\ last.out[i].body = Concat([k \in 1..Tot(last.id) |-> BodyOfG(last.id, k, gen[last.id])])
     /\ Cardinality(Comp) <= 1
     /\ \A id \in Ids : delivered[id] <= 1
 AtLastPacket ==
